@@ -120,17 +120,19 @@ type gmWalk struct {
 	failAt int // fail the k-th dial (absolute count); 0 = never
 	// runs inside the failing dial, i.e. while UpdateMultiEndpoints is in progress
 	dialHook func()
-	conns    map[string][]*grpc.ClientConn
-	order    []string            // dial log
-	mes      map[string][]string // model
-	def      string
-	gme      *GCPMultiEndpoint
-	log      []string
-	viol     *vViol
-	hits     map[string]int64
-	incon    int64
-	dirty    bool
-	idx      int64
+	// 1: an RPC / update / Close did not return (watchdog)
+	blocked int32
+	conns   map[string][]*grpc.ClientConn
+	order   []string            // dial log
+	mes     map[string][]string // model
+	def     string
+	gme     *GCPMultiEndpoint
+	log     []string
+	viol    *vViol
+	hits    map[string]int64
+	incon   int64
+	dirty   bool
+	idx     int64
 	// endpoints dialled by a rejected update (C16)
 	rolledBack []string
 	slowDial   bool
@@ -251,7 +253,33 @@ func gmDescribe(o *GCPMultiEndpointOptions) string {
 }
 
 // call issues one RPC (unary or streaming) and returns the server that answered.
-func (w *gmWalk) call(name string, stream bool) (res string, err error) {
+// call issues one RPC under a watchdog: an RPC that does not return although
+// its context has a 2s deadline is blocked inside the library (e.g. on a lock
+// that an earlier call left held); once that happened every later call reports
+// BLOCKED at once.
+func (w *gmWalk) call(name string, stream bool) (string, error) {
+	if atomic.LoadInt32(&w.blocked) == 1 {
+		return "", fmt.Errorf("BLOCKED: an earlier RPC never returned")
+	}
+	type result struct {
+		res string
+		err error
+	}
+	ch := make(chan result, 1)
+	go func() {
+		r, e := w.call1(name, stream)
+		ch <- result{r, e}
+	}()
+	select {
+	case r := <-ch:
+		return r.res, r.err
+	case <-time.After(20 * time.Second):
+		atomic.StoreInt32(&w.blocked, 1)
+		return "", fmt.Errorf("BLOCKED: the RPC did not return within 20s although its context has a 2s deadline")
+	}
+}
+
+func (w *gmWalk) call1(name string, stream bool) (res string, err error) {
 	defer func() {
 		if r := recover(); r != nil {
 			buf := make([]byte, 1<<14)
@@ -285,6 +313,19 @@ func (w *gmWalk) call(name string, stream bool) (res string, err error) {
 		return "", err
 	}
 	return out.Value, nil
+}
+
+// guarded runs f (a call into the library) under a 60s watchdog.
+func (w *gmWalk) guarded(f func() error) (err error, hung bool) {
+	ch := make(chan error, 1)
+	go func() { ch <- f() }()
+	select {
+	case err = <-ch:
+		return err, false
+	case <-time.After(60 * time.Second):
+		atomic.StoreInt32(&w.blocked, 1)
+		return nil, true
+	}
 }
 
 func (w *gmWalk) openConn(e string) *grpc.ClientConn {
@@ -732,8 +773,11 @@ func (w *gmWalk) closeAndCheck(baseline int) {
 			w.hit("C16.owner-closed-conn")
 		}
 	}
-	err := w.gme.Close()
-	_ = err
+	_, hung := w.guarded(func() error { return w.gme.Close() })
+	if hung {
+		w.fail("C16.blocked", "close", "Close() did not return within 60s")
+		return
+	}
 	w.hit("C16.close")
 	w.dialMu.Lock()
 	for e, cs := range w.conns {
@@ -1154,7 +1198,11 @@ func gmRunC16(rng *vRand, idx int64) *gmWalk {
 		dialsBefore := w.dialN
 		w.dialMu.Unlock()
 		w.say("update[%s fail@%d] %s", b.kind, b.fail, gmDescribe(upd))
-		uerr := w.gme.UpdateMultiEndpoints(upd)
+		uerr, hung := w.guarded(func() error { return w.gme.UpdateMultiEndpoints(upd) })
+		if hung {
+			w.fail("C16.blocked", "update", "UpdateMultiEndpoints did not return within 60s (an earlier call left the object locked?)")
+			break
+		}
 		w.dialMu.Lock()
 		w.failAt = 0
 		dialled := append([]string{}, w.order[dialsBefore:]...)
@@ -1207,6 +1255,10 @@ func gmRunC16(rng *vRand, idx int64) *gmWalk {
 		}
 		s1, _ := w.snapshot()
 		w.hit("C16.routing-unchanged")
+		if strings.Contains(s1, "BLOCKED") {
+			w.fail("C16.rpc-after-update", "blocked", "after a rejected update (%s) RPCs do not return any more: %s", b.kind, s1)
+			break
+		}
 		if strings.Contains(s1, "PANIC") {
 			w.fail("C16.rpc-after-update", "panic", "after a rejected update an RPC panicked: %s", s1)
 			break
@@ -1233,11 +1285,17 @@ func gmRunC16(rng *vRand, idx int64) *gmWalk {
 }
 
 func (w *gmWalk) cleanup() {
-	if w.gme != nil {
-		func() {
+	if w.gme != nil && atomic.LoadInt32(&w.blocked) == 0 {
+		done := make(chan struct{})
+		go func() {
+			defer close(done)
 			defer func() { recover() }()
 			w.gme.Close()
 		}()
+		select {
+		case <-done:
+		case <-time.After(20 * time.Second):
+		}
 	}
 	w.dialMu.Lock()
 	for _, cs := range w.conns {
@@ -1273,7 +1331,13 @@ func TestVerifGME(t *testing.T) {
 		t.Skip("VERIF_PROP not set")
 	}
 	out := vNewOut(env, "gme")
+	nBlocked := 0
 	for _, idx := range env.vCases(gmCaseCount(env)) {
+		if nBlocked >= 2 {
+			// every blocked walk costs the watchdog's patience and leaves goroutines behind
+			out.inconclusive("batch stopped early: walks ended with calls that never return")
+			break
+		}
 		rng := vNewRand(env.Seed, "gme/"+env.Prop, idx)
 		var w *gmWalk
 		if env.Prop == "C16" {
@@ -1291,6 +1355,9 @@ func TestVerifGME(t *testing.T) {
 		out.nontrivial(vHashStrings(w.log))
 		if len(out.Samples) < 2 {
 			out.sample(map[string]interface{}{"case": idx, "ops": w.log})
+		}
+		if atomic.LoadInt32(&w.blocked) == 1 {
+			nBlocked++
 		}
 		if w.viol != nil {
 			v := *w.viol
